@@ -95,3 +95,31 @@ def symmetric_cage(mol):
             if all(v >= 2 for v in c.values()):
                 return True
     return False
+
+
+def symmetric_bridged_polycycle(mol):
+    """recorded finding of C01 (not one of the two documented gaps): a bridged ring system (two smallest rings share three or more
+    atoms) with three or more rings in which at least two classes of ring atoms have two or more members. The walk breaks the first
+    tie between equivalent atoms arbitrarily and then keeps using the classes of the whole molecule, although the first choice has
+    made the remaining pairs inequivalent: C1C2C3CC1C1C(CCCC1C3)C2 has two canonical strings"""
+    sssr = [set(r) for r in mol.sssr]
+    if len(sssr) < 3:
+        return False
+    col = refine(mol)
+    from collections import Counter
+    blocks = []
+    for r in sssr:
+        merged = [b for b in blocks if len(b[0] & r) > 1]
+        for b in merged:
+            blocks.remove(b)
+        atoms, rings = set(r), [r]
+        for b in merged:
+            atoms |= b[0]
+            rings += b[1]
+        blocks.append((atoms, rings))
+    for atoms, rings in blocks:
+        if len(rings) >= 3 and any(len(a & b) >= 3 for i, a in enumerate(rings) for b in rings[i + 1:]):
+            c = Counter(col[n] for n in atoms)
+            if sum(1 for v in c.values() if v >= 2) >= 2:
+                return True
+    return False
